@@ -700,6 +700,19 @@ def gen_case(rng, maxops):
         elif held:
             h = held.pop(rng.randrange(len(held)))
             ops.append(["release"] + h)
+    # scripted: an object the caller built (not one the container instantiated) is added, then edited; the same for an
+    # object taken out and put back.  (pick -1 = the object added last; odd step numbers build free-standing objects.)
+    r = rng.random()
+    if r < 0.12:
+        ops = [["same", "font", 0, 0], ["touch", "font", 0, 1], ["touch", "guideline", -1, rng.randrange(1000)],
+               ["touch", "font", 0, 2], ["touch", "guideline", -1, rng.randrange(1000)]] + ops
+    elif r < 0.24:
+        kind = rng.choice(["Contour", "Component", "Anchor", "Guideline"])
+        names = [e[0] for e in CATALOGUE["glyph"] if e[1] is not None]
+        gp = rng.randrange(1000)
+        ops = [["same", "glyph", gp, 0], ["touch", "glyph", gp, names.index("append" + kind)],
+               ["touch", kind.lower(), -1, rng.randrange(1000)], ["same", "glyph", gp, 0],
+               ["touch", "glyph", gp, names.index("reappend" + kind)], ["touch", kind.lower(), -1, rng.randrange(1000)]] + ops
     # the scripted pattern of the property: hold an ancestor, change a descendant (twice: coalescing), release
     if rng.random() < 0.5:
         pick = rng.randrange(1000)
